@@ -79,7 +79,17 @@ var vkScPolicies = []vkECSPolicy{
 	{Enabled: true, V4: 24, V6: 56, Min4: 20, Nets: []string{"10.0.0.0/8"}, CapTTL: 6},
 	{Enabled: true, V4: 24, V6: 56, Nets: []string{"10.0.0.0/8"}, CapTTL: 6}, // floor defaults to the ceiling
 	{Enabled: true, V4: 24, V6: 56, Min4: 20, CapTTL: 6},                      // no client_networks: every client may have its subnet forwarded
+	// (denial family only) subnet handling switched off, and an invalid policy (fails closed to "off"):
+	// a query that CARRIED a subnet is still outside the shared-denial audience
+	{Enabled: false, V4: 24, V6: 56, CapTTL: 6},
+	{Enabled: true, V4: 24, V6: 56, Nets: []string{"10.0.0.0/33"}, CapTTL: 6},
 }
+
+const vkScMainPolicies = 3 // the full-alphabet searches use the first three policies
+
+// vkScRoute: how client queries enter the pipeline in this replay ("msg" = decoded message,
+// "wire" = wire-born request, the form the datagram and stream listeners hand over).
+var vkScRoute = "msg"
 
 func vkNewScWorld() *vkScWorld {
 	vtime.SetOffset(0)
@@ -179,7 +189,7 @@ func (w *vkScWorld) apply(ev vkScEv) (string, string) {
 	}
 	cutsBefore, proofsBefore := w.c.store.NXDomainCutLen(), w.c.store.DenialProofLen()
 	t := vtime.Now()
-	r, _ := w.ask3("msg", vkECSRequest(cs, name, 31), cl.Addr)
+	r, _ := w.ask3(vkScRoute, vkECSRequest(cs, name, 31), cl.Addr)
 	after := vtime.Now()
 	if v := vkCheckClientReply(r.msg); v != "" {
 		return v, "violation"
@@ -305,7 +315,13 @@ func (w *vkScWorld) storedScopesCheck() string {
 }
 
 func vkScReplay(pi int, h []vkScEv) (string, []string) {
+	return vkScReplayR(pi, "msg", h)
+}
+
+func vkScReplayR(pi int, route string, h []vkScEv) (string, []string) {
 	vkScPolicy = vkScPolicies[pi]
+	vkScRoute = route
+	defer func() { vkScRoute = "msg" }()
 	w := vkNewScWorld()
 	defer w.stop()
 	for _, ev := range h {
@@ -334,12 +350,16 @@ func TestVerifC19Scoped(t *testing.T) {
 		var r struct {
 			Hist   []vkScEv `json:"hist"`
 			Policy int      `json:"policy"`
+			Route  string   `json:"route"`
 		}
 		if json.Unmarshal(c.Replay, &r) != nil {
 			c.HarnessError("bad replay")
 			return
 		}
-		if v, _ := vkScReplay(r.Policy, r.Hist); v != "" {
+		if r.Route == "" {
+			r.Route = "msg"
+		}
+		if v, _ := vkScReplayR(r.Policy, r.Route, r.Hist); v != "" {
 			c.Violation("scoped:replay", v, r)
 		}
 		return
@@ -404,11 +424,75 @@ func TestVerifC19Scoped(t *testing.T) {
 			rec(append(append([]vkScEv{}, h...), ev))
 		}
 	}
-	for pi = range vkScPolicies {
+	for pi = 0; pi < vkScMainPolicies; pi++ {
 		if pi >= 1 && !c.Thorough() {
 			depth = 2 // the other policies only need admission + one probe
 		}
 		rec(nil)
+	}
+	// denial family: every history (<= 3, thorough 4) of {askneg, askbelow} x every client x one clock
+	// advance, under EVERY policy (including subnet handling off / invalid) and both entry forms.
+	{
+		var nev []vkScEv
+		for ci := range vkScClients {
+			nev = append(nev, vkScEv{Kind: "askneg", Client: ci}, vkScEv{Kind: "askbelow", Client: ci})
+		}
+		nev = append(nev, vkScEv{Kind: "adv", D: 4})
+		ndepth := 3
+		if c.Thorough() {
+			ndepth = 4
+		}
+		work := 0
+		for npi := range vkScPolicies {
+			for _, route := range []string{"msg", "wire"} {
+				if npi < vkScMainPolicies && route == "msg" && ndepth <= depth {
+					continue // already part of the main search
+				}
+				var nrec func(h []vkScEv)
+				nrec = func(h []vkScEv) {
+					if c.NumViolations() > 5 {
+						return
+					}
+					if len(h) > 0 && h[len(h)-1].Kind != "adv" {
+						v, outs := vkScReplayR(npi, route, h)
+						c.Add("evaluations", 1)
+						c.Outcome("neg-family:" + route + ":" + outs[len(outs)-1])
+						if strings.Contains(strings.Join(outs, ","), "neg-local") {
+							c.DistinctStr("nontrivial", fmt.Sprint(npi, route, h))
+						}
+						if v != "" {
+							if strings.Contains(v, "harness:") {
+								c.HarnessError(v)
+								return
+							}
+							if v2, _ := vkScReplayR(npi, route, h); v2 == "" {
+								c.Add("dropped_unreproducible", 1)
+								return
+							}
+							c.Violation("scoped:"+route+":"+vkC19Class(v), fmt.Sprintf("policy %v, %s-born queries, after %v: %s", vkScPolicies[npi], route, h, v), map[string]any{"hist": h, "policy": npi, "route": route})
+							return
+						}
+					}
+					if len(h) == ndepth {
+						return
+					}
+					for _, ev := range nev {
+						if len(h) == 0 {
+							work++
+							if !c.Mine(work) {
+								continue
+							}
+						}
+						if c.OverBudget() {
+							c.Cap("time budget")
+							return
+						}
+						nrec(append(append([]vkScEv{}, h...), ev))
+					}
+				}
+				nrec(nil)
+			}
+		}
 	}
 	// background refresh x client subnet: creator asks, the entry ages into the refresh
 	// window, a trigger client hits it (claiming a refresh), the worker runs the refresh while
@@ -418,7 +502,7 @@ func TestVerifC19Scoped(t *testing.T) {
 		pfScopes = []int{0, 16, 24, 33}
 	}
 	n := 0
-	for pi = range vkScPolicies {
+	for pi = 0; pi < vkScMainPolicies; pi++ {
 		for creator := range vkScClients {
 			for _, s0 := range pfScopes {
 				for trigger := range vkScClients {
